@@ -1,5 +1,6 @@
 import MindsVerif.Lemmas.DecodeMain
 import MindsVerif.Lemmas.Encode
+import MindsVerif.Lemmas.Codec
 import MindsVerif.Gen.Reserved
 /-!
 # C07 — constants render as inert, exact literals in every output path
@@ -62,6 +63,12 @@ theorem C07_tostring_partial (v rest : List Char) (hv : encOK v = true) (hr : re
   have hs := mQuote_src rest hr (encItems v) e2
   rw [e]
   simp [srcLit, lexQuote, hs]
+
+/-- **T7.1 for the codec of `docs/proposed_fixes/C04_2.diff`, full**: for every string the library's own reader (any
+dialect) reads the printed literal back as exactly the value and stops exactly behind it -/
+theorem C07_tostring_codec (v rest : List Char) (hr : rest.head? ≠ some '\'') :
+    Codec.readString (Codec.constantToString v ++ rest) = some (v, rest) :=
+  Codec.roundtrip v rest hr
 
 /-- the same value ends the library's own literal early: the token is `'\\'` -/
 theorem C07_witness_tostring :
